@@ -1124,9 +1124,9 @@ Lemma bound1_in_grid (c : @abf_cfg R) k b : (0 <= b < zget (c_nx c) k)%Z -> boun
 Proof.
   intros [H0 H1]. unfold bound1. cbv zeta.
   assert (Hrem : Z.rem b (zget (c_nx c) k) = b) by (apply Z.rem_small; lia).
-  destruct (bget (c_periodic c) k); [rewrite Hrem|];
-    (destruct (b <? 0)%Z eqn:E1; [apply Z.ltb_lt in E1; lia|];
-     destruct (zget (c_nx c) k <=? b)%Z eqn:E2; [apply Z.leb_le in E2; lia|]; reflexivity).
+  assert (E1 : (b <? 0)%Z = false) by (apply Z.ltb_ge; lia).
+  assert (E2 : (zget (c_nx c) k <=? b)%Z = false) by (apply Z.leb_gt; lia).
+  destruct (bget (c_periodic c) k); [rewrite Hrem|]; rewrite ?E1, ?E2; rewrite ?E1, ?E2; reflexivity.
 Qed.
 
 Lemma zget_map_seq (f : nat -> Z) (n k : nat) : (k < n)%nat -> zget (map f (seq 0 n)) k = f k.
